@@ -467,28 +467,35 @@ def copy_db(db):
     return OrderedDict((x, dict(o)) for x, o in db.items())
 
 
+def names_db(dump, final_db, pre_db):
+    """A logged database content ([[point, names], ...]) with the values the uninterrupted run records."""
+    db = OrderedDict()
+    for x, names in dump:
+        x = tuple(F(t) for t in x)
+        db[x] = {n: (final_db[x][n] if n in final_db.get(x, {}) else pre_db.get(x, {}).get(n, ("missing",))) for n in names}
+    return db
+
+
 def replay_trace(events, pre_db, final_db, each_call: bool, each_iter: bool, ck: str, stop_k: int | None):
-    """Plain-dict replay of a traced run up to (excluding) its `stop_k`-th crash-point event.
+    """What the property expects at the `stop_k`-th crash-point event of a traced run.
 
     Returns (database of the completed evaluations, database at the last backup notification).
+    The first is the in-memory database logged by the discipline itself at that event; the second
+    is, in function-call mode, the same thing, and in each-iteration mode the database logged at
+    the last new-iteration notification before it (the pre-existing content when there is none).
     Values are those the uninterrupted run records (`final_db`)."""
-    db = copy_db(pre_db)
-    snap = copy_db(db)
+    snap = copy_db(pre_db)
+    completed = copy_db(pre_db)
     for ev in events:
         k = ev["ev"]
         if k == ck and stop_k is not None and ev["k"] == stop_k:
+            completed = names_db(ev["db"], final_db, pre_db)
             break
-        if k == "store":
-            x = tuple(F(t) for t in ev["x"])
-            ent = db.setdefault(x, {})
-            for n in ev["names"]:
-                if n not in ent:
-                    ent[n] = final_db[x][n]
-            if each_call:
-                snap = copy_db(db)
-        elif k == "newiter" and each_iter:
-            snap = copy_db(db)
-    return db, snap
+        if k == "newiter" and each_iter and not each_call:
+            snap = names_db(ev["db"], final_db, pre_db)
+    if each_call:
+        snap = copy_db(completed)
+    return completed, snap
 
 
 # --------------------------------------------------------------------------- one configuration
@@ -610,7 +617,7 @@ def check_crash(res: Result, cfg, label: str, rp: dict, ref: dict, k: int, d: di
     res.count("strict_reading_equal" if not db_equal(backup, completed) else "strict_reading_lags")
     if backup:
         res.nontrivial(json.dumps([label]))
-    if any(set(ref_final[x]) - set(o) for x, o in backup.items()):
+    if any(set(ref_final.get(x, {})) - set(o) for x, o in backup.items()):
         res.count("backup-with-partial-entry")
     # ---- restart
     if R["rc"] != 0 or R["out"] is None or R["out"]["error"]:
